@@ -2146,3 +2146,31 @@ PROPS["C11"]["level_text"] += (" Composition (Props/C11Compose.lean): c11_slice_
     "lineCol bs idx (= the naive memrchr / memchr count), line = 1 + newlines among the first idx bytes <= 1 + newlines of the input, "
     "column <= idx; c11_reader_error_linecol - the same from a reader: the LineColIterator that has handed out idx bytes (last one peeked "
     "or not) shows (line, col) = lineCol bs idx and byte_offset() = idx (c11_within_input + c11_slice_linecol / c11_iter_linecol).")
+
+# ---- C13 writer clause: the writer threaded through the traversal of ser.rs (rewords the honesty-pass item: runBufs is now a theorem
+#      about a threaded transcription at the granularity of Formatter calls)
+PROPS["C13"]["lean_targets"] = PROPS["C13"]["lean_targets"][:-1] + ["SJ.Props.C13Threaded"] + PROPS["C13"]["lean_targets"][-1:]
+PROPS["C13"]["partial"] = [x for x in PROPS["C13"]["partial"] if not x.startswith("writer clause: 'the serializer performs the write_all calls of Model.Ser's buffer list")] + [
+    "writer clause: 'the serializer performs the write_all calls of Model.Ser's buffer list in order and stops at the first failing one' "
+    "(Model.Write.Writer.runBufs) is no longer only a definition: Model.WriteThreaded transcribes the traversal of ser.rs (impl Serializer "
+    "for &mut Serializer, Compound's serialize_element / serialize_key / serialize_value / serialize_field / end, the hand-over to "
+    "MapKeySerializer) with &mut self.writer threaded through every Formatter call - a state monad over the Writer whose primitive is "
+    "writer.write_all(buf).map_err(Error::io) and whose bind is tri! - and c13_writer_threaded proves toWriterW = toWriterT for every fuel, "
+    "formatter, program and writer (c13_writer_threaded_sub: every sub-serialisation from every formatter state; c13_writer_threaded_ok: "
+    "= toWriter on programs that serialise). What remains by construction is the INSIDE of a single Formatter method (begin_array ... "
+    "end_object, indent's for loop, write_byte_array, format_escaped_str_contents) and of an accepted MapKeySerializer method: each is "
+    "taken from Model.Ser as the list of its write_all arguments plus the formatter state afterwards, run as a tri! chain (writesM), not "
+    "re-transcribed with the writer threaded; that every write_all there is under tri! or the tail expression is the static scan "
+    "c13_every_write_checked, and the whole is tied to the crate by the correspondence op wfault (mutations: a swallowed "
+    "map_err(Error::io)?, a closing quote written after a failed fragment, write instead of write_all - all VIOLATION with replay, "
+    "docs/WRITER-NOTES.md). An endless Interrupted loop is outcome `hang` (fuel); flush / write_vectored / write_fmt are never called by "
+    "to_writer* and are not modelled; collect_str is one write_str of a well-behaved Display (assumption)",
+]
+PROPS["C13"]["level_text"] += (" The writer threaded through (Props/C13Threaded.lean over Model/WriteThreaded.lean, Proofs/WriteThreaded.lean): "
+    "c13_writer_threaded - the traversal of ser.rs with &mut self.writer handed to every Formatter call (state monad over the writer, tri! as "
+    "bind, write_all + map_err(Error::io) as the only primitive) leaves the same writer and returns the same Result as runBufs over the "
+    "buffer list, for every fuel, formatter, program (also one failing by a non-string key) and writer policy; c13_writer_threaded_sub - "
+    "likewise every sub-serialisation from any formatter state (the monad morphism runT: runBufs over an append splits with early exit); "
+    "c13_writer_threaded_ok - on programs that serialise this is toWriter. Kernel-checked runs: [1,2] into a writer whose third write "
+    "fails (handed `[`, `1`, `,`; accepted `[1`; that io::Error), [{(): null}] (two buffers, then key must be a string; a writer failing "
+    "at the second write pre-empts it).")
